@@ -50,7 +50,7 @@ CLAIMS = {
             "(only reads are shared); threads are not executed", "3 C08"),
     "C09": ("for every leaf kind x argument shape x enumerated key spelling (case variants, aliases, type names), from_spec(spec) equals the "
             "DSL-built condition (same class) and both filter identically, for every value of the symbolic arguments and probe leaf; "
-            "and/or/xor spec lists nested to depth 2", "3 C09"),
+            "and/or/xor spec lists nested to depth 2; data-path arguments written as specs (incl. the root path) judged through a rule", "3 C09"),
     "C10": ("for each part / path / path-string / rule spec form, the parsed object equals the API-built one and both select / "
             "validate identically on symbolic documents, for every value of the symbolic condition arguments, primitive parts and "
             "labels; the YAML text route (Schema.from_yaml, from_yaml_file) is outside the solver's claim and exercised on each "
